@@ -18,6 +18,30 @@ func vBytesEq(a, b []byte) bool {
 	return diff == 0
 }
 
+// vDirtyBuffer is a serialize buffer that has been used before: the room in front of and
+// behind the next layers holds old bytes (0xA5), as on a connection that re-uses one buffer.
+func vDirtyBuffer() gopacket.SerializeBuffer {
+	buf := gopacket.NewSerializeBuffer()
+	b, _ := buf.PrependBytes(320)
+	for i := range b {
+		b[i] = 0xA5
+	}
+	b, _ = buf.AppendBytes(64)
+	for i := range b {
+		b[i] = 0xA5
+	}
+	buf.Clear()
+	return buf
+}
+
+// vBuffer is a fresh or a used serialize buffer.
+func vBuffer() gopacket.SerializeBuffer {
+	if vBool() {
+		return vDirtyBuffer()
+	}
+	return gopacket.NewSerializeBuffer()
+}
+
 func vCopy(b []byte) []byte {
 	c := make([]byte, len(b))
 	copy(c, b)
@@ -113,7 +137,7 @@ func VerifC08_Message() {
 	}
 	n := vLen(0, vParam("maxpayload", 24))
 	payload := vBytes(n)
-	buf := gopacket.NewSerializeBuffer()
+	buf := vBuffer()
 	err := gopacket.SerializeLayers(buf, vSerOpts, m, gopacket.Payload(payload))
 	vAssert(err == nil, "c08-message-serialises")
 	wire := vCopy(buf.Bytes())
@@ -125,7 +149,7 @@ func VerifC08_Message() {
 	}
 	vAssert(vSameFields(&d, m, "BaseLayer"), "c08-message-roundtrip-equal-value")
 	vAssert(vBytesEq(d.LayerPayload(), payload), "c08-message-roundtrip-payload")
-	buf2 := gopacket.NewSerializeBuffer()
+	buf2 := vDirtyBuffer()
 	err = gopacket.SerializeLayers(buf2, vSerOpts, &d, gopacket.Payload(d.LayerPayload()))
 	vAssert(err == nil && vBytesEq(buf2.Bytes(), wire), "c08-message-reserialises-to-the-same-bytes")
 	vReached("end")
@@ -141,7 +165,7 @@ func VerifC08_V1Session() {
 	}
 	n := vLen(0, vParam("maxpayload", 24))
 	payload := vBytes(n)
-	buf := gopacket.NewSerializeBuffer()
+	buf := vBuffer()
 	err := gopacket.SerializeLayers(buf, vSerOpts, s, gopacket.Payload(payload))
 	vAssert(err == nil, "c08-v1session-serialises")
 	wire := vCopy(buf.Bytes())
@@ -153,7 +177,7 @@ func VerifC08_V1Session() {
 	}
 	vAssert(vSameFields(&d, s, "BaseLayer"), "c08-v1session-roundtrip-equal-value")
 	vAssert(vBytesEq(d.LayerPayload(), payload), "c08-v1session-roundtrip-payload")
-	buf2 := gopacket.NewSerializeBuffer()
+	buf2 := vDirtyBuffer()
 	err = gopacket.SerializeLayers(buf2, vSerOpts, &d, gopacket.Payload(d.LayerPayload()))
 	vAssert(err == nil && vBytesEq(buf2.Bytes(), wire), "c08-v1session-reserialises-to-the-same-bytes")
 	vReached("end")
@@ -185,7 +209,7 @@ func VerifC08_V2Session() {
 	}
 	n := vLen(0, vParam("maxpayload", 20))
 	payload := vBytes(n)
-	buf := gopacket.NewSerializeBuffer()
+	buf := vBuffer()
 	err := gopacket.SerializeLayers(buf, vSerOpts, s, gopacket.Payload(payload))
 	vAssert(err == nil, "c08-v2session-serialises")
 	wire := vCopy(buf.Bytes())
@@ -215,7 +239,7 @@ func VerifC08_V2Session() {
 	vAssert(d.Encrypted == s.Encrypted && d.Authenticated == s.Authenticated && d.ID == s.ID && d.Sequence == s.Sequence &&
 		d.PayloadDescriptor == s.PayloadDescriptor && int(d.Length) == n && d.Pad == s.Pad, "c08-v2session-roundtrip-equal-value")
 	vAssert(vBytesEq(d.LayerPayload(), payload), "c08-v2session-roundtrip-payload")
-	buf2 := gopacket.NewSerializeBuffer()
+	buf2 := vDirtyBuffer()
 	err = gopacket.SerializeLayers(buf2, vSerOpts, &d, gopacket.Payload(d.LayerPayload()))
 	vAssert(err == nil && vBytesEq(buf2.Bytes(), wire), "c08-v2session-reserialises-to-the-same-bytes")
 	vReached("end")
@@ -226,7 +250,7 @@ func VerifC08_RAKPMessage1() {
 	r := &RAKPMessage1{Tag: vByte(), ManagedSystemSessionID: vU32(), PrivilegeLevelLookup: vBool(), MaxPrivilegeLevel: PrivilegeLevel(vByte() & 0xf)}
 	copy(r.RemoteConsoleRandom[:], vBytes(16))
 	r.Username = string(vBytes(vLen(0, 16)))
-	buf := gopacket.NewSerializeBuffer()
+	buf := vBuffer()
 	err := gopacket.SerializeLayers(buf, vSerOpts, r)
 	vAssert(err == nil, "c08-rakp1-serialises")
 	wire := vCopy(buf.Bytes())
@@ -237,7 +261,7 @@ func VerifC08_RAKPMessage1() {
 		return
 	}
 	vAssert(vSameFields(&d, r, "BaseLayer"), "c08-rakp1-roundtrip-equal-value")
-	buf2 := gopacket.NewSerializeBuffer()
+	buf2 := vDirtyBuffer()
 	err = gopacket.SerializeLayers(buf2, vSerOpts, &d)
 	vAssert(err == nil && vBytesEq(buf2.Bytes(), wire), "c08-rakp1-reserialises-to-the-same-bytes")
 	vReached("end")
